@@ -280,6 +280,19 @@ theorem C16_tx_fails_iff (p : Prefix) (e r : Bytes) (hp : wfPrefix p) (hl : e.le
     ((vec sizes.u8 u8 (encVarint e.length ++ e ++ r)).isSome = true ↔ e.length ≤ CAP) :=
   ⟨prefix_isSome_iff p e r hp hl, vec_u8_isSome_iff e r hl⟩
 
+/-! ## the tag bytes are the regenerated ones -/
+
+/-- **Tags = `Gen` tables.** The tag byte the model's encoder writes for each variant is the one in the regenerated
+`Gen.subFieldEncode`; a successful read starts with a tag that `Gen.subFieldDecode` maps to the variant returned; a
+first byte outside `Gen.subFieldDecode` fails the read having consumed just that byte. (The tables are regenerated
+from the current source on every run, so a changed tag in the library breaks this theorem — beside relation B.) -/
+theorem C16_tags_are_generated (vk : Bytes → Bool) :
+    (∀ sf, (encSub sf).head? = (Gen.subFieldEncode.lookup (variantOf sf)).map UInt8.ofNat) ∧
+    (∀ b sf r, subFieldRd vk b = (some sf, r) →
+      ∃ t rest, b = t :: rest ∧ (t.toNat, variantOf sf) ∈ Gen.subFieldDecode) ∧
+    (∀ t xs, (∀ v, (t.toNat, v) ∉ Gen.subFieldDecode) → subFieldRd vk (t :: xs) = (none, xs)) :=
+  ⟨encSub_tag, subFieldRd_tag vk, subFieldRd_unknown_tag vk⟩
+
 /-! ## instantiation with the driver's Ed25519 key validity -/
 
 /-- `C16_roundtrip` and `C16_reparse` for `vk := Drv.C16.edValid` (decodes to a curve point of the reference Ed25519
